@@ -174,7 +174,12 @@ func (vfs *MemFS) searchNodeOnce(path string, slMode slMode) (
 				}
 			}
 
-			if pi.ReplacePart(c.link) {
+			verifYield(&c.mu, false)
+			c.mu.RLock()
+			link := c.link
+			c.mu.RUnlock()
+
+			if pi.ReplacePart(link) {
 				parent = volNode
 			}
 		}
